@@ -304,7 +304,7 @@ def corr_sp2(ctx: Ctx, drv):
 
 def run(ctx: Ctx):
     from ..translate import gen
-    gen.regenerate(ctx, ["Constants"])
+    gen.regenerate(ctx, ["Constants", "LoopCensus", "Guards"])
     leanproj.check_theorems(ctx, MODULE, THEOREMS)
     drv = leanproj.Driver()
     try:
